@@ -18,7 +18,7 @@ ASSUMPTIONS = ['no schedule dimension', 'the expected lines are computed from wh
 PROBES = []
 PLAN = {
   'quick': {'strata': {'spy': 5000}, 'wall_s': 300, 'chunk': 100, 'min_conclusive': 1000},
-  'thorough': {'strata': {'spy': 120000}, 'wall_s': 900, 'chunk': 250, 'min_conclusive': 10000},
+  'thorough': {'strata': {'spy': 120000}, 'wall_s': 900, 'chunk': 250, 'min_conclusive': 1000},
 }
 ORACLES = [co.check_spy]
 
